@@ -318,15 +318,23 @@ class Check(PropertyCheck):
                   "with the COMPLETE plaintext of the connection so far), peer_stream_exact (emitted ciphertext = engine output, and the peer's reading of it = "
                   "the concatenation of the child's accepted SendData payloads), close_last (when a segment makes close_notify visible the child gets the rest of "
                   "the data, then exactly one ConnectionClosed, and then holds the complete plaintext of the connection), send_after_half_close (tunnel level: the peer's "
-                  "TCP close sets CLOSED, and a SendData of the child in that state is still encrypted and forwarded; peer's reading = accepted payloads). Proved by an inductive invariant over "
+                  "TCP close sets CLOSED, and a SendData of the child in that state is still encrypted and forwarded; peer's reading = accepted payloads), ref_codec_lawful + "
+                  "child_stream_exact_ref + peer_stream_exact_ref (the framed record codec of the driver is a proved-lawful instance; the stream theorems hold for it "
+                  "without hypotheses about the engine). CLAUSES: 'every byte the client sends reaches the inner layer exactly once, in order, regardless of record/"
+                  "segment splits' = child_stream_exact + child_stream_complete / oracle clause got == expect_child; 'every byte the inner layer sends reaches the "
+                  "client' = peer_stream_exact + send_after_half_close / oracle clauses peer_plain == cs_payloads and injected events handled once in order; 'same on "
+                  "the server side' = the theorems are for both Sides / scenarios on client, server-open, server-eager; 'close_notify delivered as close after all "
+                  "preceding data' = close_last + close_after_data / oracle clause on the position of `cl`; 'data immediately after the handshake, queued events' = "
+                  "queued_during_handshake_in_order + QG invariant / hold-tail scenarios. Proved by an inductive invariant over "
                   "histories (queue discipline QG, crash monotonicity, engine-vs-layer ghost invariant TG). Plus the per-call theorems child_receives_exactly, "
                   "client_receives_exactly, close_after_data, queued_during_handshake_in_order for arbitrary states. Model tied to the real layers + real "
                   "TlsConfig + real OpenSSL by scenario runs compared step by step (child events with chunk boundaries, decrypted plaintext, closes/opens/hooks, "
                   "final state).")
     level_note = ("PARTIAL: everything is RELATIVE to the stream-faithfulness law of the TLS engine (OpenSSL's; structure fields, never axioms; shown "
-                  "satisfiable by the pass-through codec `idLaws`). NOT done: `refLaws` — the framed reference codec of the driver is not proved lawful (Laws "
-                  "quantifies over all codec states; a stateful record parser satisfies it only on consistent states, which needs a subtype/reachability "
-                  "refactoring of Laws), so the differential run validates the layer model with a codec that is itself only validated differentially. The "
+                  "satisfiable by the pass-through codec `idLaws` AND by the driver's framed reference codec: `refLaws : Laws refCodec` is proved (Lemmas/C14_RefL.lean — "
+                  "byte-wise framing automaton, one record-step function as both implementation and specification of the session's reading, states = the subtype "
+                  "satisfying the consistency invariant), the compiled driver runs exactly that codec, and child_stream_exact_ref / peer_stream_exact_ref are the "
+                  "whole-history theorems with no law or freshness hypothesis left). What remains assumed is that OpenSSL itself obeys the law. The "
                   "whole-history theorems are conditional on `crashed = false` (the model's stand-in for an exception of the real code, e.g. data for a layer "
                   "whose tls_start hook provided nothing). close_last: a second ConnectionClosed IS produced if further bytes arrive after a close_notify "
                   "(recv keeps answering ZeroReturn) — real behaviour, reproduced in the differential run; 'exactly one' is per segment. Assumes "
